@@ -15,6 +15,7 @@ map of tokens (trusted).  All theorems: every well-formed heap, every state, eve
 history.
 -/
 import QV.Lemmas.StoreIO
+import QV.Lemmas.StoreLoc
 import QV.Props.C20
 
 namespace QV.Props
@@ -799,6 +800,370 @@ example :
     (w1.files 0).bind (fun f => aget f (.str "unitary_dict")) = some (.mv false 14) ∧
     (step w1 (.load 1 0)).2 = none ∧ (step w1 (.autoload 0 .pos 0 [])).2 = none ∧
     (step w1 (.autoload 0 .cplx 0 [])).2 = some .AttributeError := by
+  decide
+
+/-! ## Extension round 2: the location forms inside the model (`QV.Model.StoreLoc`) -/
+
+/-! ### C11.5 — `location` is an open file object: streams of checkpoints -/
+
+/-- **C11_autoload_stream.** For EVERY file object holding any number of segments (checkpoints of any models, of equal or
+different sizes, headers) and EVERY start position that is the boundary in front of a checkpoint: `Kind.autoload(fileobj)`
+(first read, construction, `seek(start)`, second read) returns exactly what the path-form `autoload` returns for the archive
+stored at THAT boundary — refused iff that one is — and leaves the object at the next boundary, behind the archive it read.
+Hence (second clause) if the archive was written by a non-refused `save` of a library state, the result is a NEW state of the
+same type with the architecture, the unitary dictionary (user-added unitaries included) and, for every network, the
+parameters the saved state had — whatever the other checkpoints of the stream hold. -/
+theorem C11_autoload_stream (h : Heap) (kind : Kind) (rand : List (List Tok)) (recs : List Rec)
+    (hpos : ∀ r ∈ recs, 0 < r.size) (k : Nat) (hk : k < recs.length) (sz : Nat) (file : File)
+    (hrec : recs[k] = ⟨sz, some file⟩) :
+    (autoloadStream h ⟨recs, offset recs k⟩ kind rand =
+      match autoload h (fun _ => some file) kind 0 rand with
+      | .error e => .error e
+      | .ok r => .ok (r.1, r.2, ⟨recs, offset recs k + sz⟩)) ∧
+    (∀ (h0 : Heap) (st0 : NState) (md : Option Nat) (s0 s0' : Stream) (sz0 : Nat) (h0' : Heap),
+        HeapWF h0 → StateOK h0 st0 → Canonical h0 st0 → saveStream h0 s0 st0 md sz0 = .ok (s0', h0') →
+        file = snapshot h0 st0 (mdEntries h0 md) → kind = st0.kind → HeapWF h →
+        ∃ h3 st3, autoloadStream h ⟨recs, offset recs k⟩ kind rand = .ok (h3, st3, ⟨recs, offset recs k + sz⟩) ∧
+          st3.kind = st0.kind ∧ st3.nv = st0.nv ∧ st3.nh = st0.nh ∧ st3.na = st0.na ∧ st3.ud = st0.ud ∧
+          st3.nets.map Prod.fst = st0.nets.map Prod.fst ∧
+          (∀ q ∈ st3.nets, ∀ p ∈ st0.nets, q.1 = p.1 → viewNet h3 q.2 = viewNet h0 p.2) ∧
+          (∀ q ∈ st3.nets, ∀ x ∈ netIds h3 q.2, h.next ≤ x)) := by
+  have hnext : offset recs (k + 1) = offset recs k + sz := by rw [offset_succ recs k hk, hrec]
+  have main := autoloadStream_boundary h kind rand recs hpos k hk sz file hrec
+  rw [hnext] at main
+  refine ⟨main, ?_⟩
+  intro h0 st0 md s0 s0' sz0 h0' wf0 ok0 can0 hsv hfile hkind wf
+  rw [saveStream_eq] at hsv
+  cases hsave : save h0 (fun _ => none) st0 md 0 with
+  | error e => simp [hsave] at hsv
+  | ok r =>
+    obtain ⟨fs', h1⟩ := r
+    obtain ⟨h3, st3, ha, rest⟩ := C11_roundtrip_autoload wf0 (fun _ => none) st0 md 0 ok0 can0 fs' h1 hsave h
+      (fun _ => some file) rand wf (by rw [hfile])
+    refine ⟨h3, st3, ?_, rest⟩
+    rw [main, hkind, ha]
+
+/-- the hypotheses of `C11_autoload_stream` are satisfiable, and the remember-and-rewind step matters: a stream
+`[checkpoint of a 1-visible model (3 bytes) | 10-byte header | checkpoint of a 2-visible model (4 bytes)]`, read at the third
+boundary (position 13).  The code returns the 2-visible model and leaves the object at 17; rewinding to the start of the FILE
+(`seek(0)`, mutant class M4_C11_2) or not rewinding at all (the code before fix F21) is refused. -/
+example :
+    let fileA : File := [(.str "rbm_am", .sd [("weights", [1, 1], 5), ("visible_bias", [1], 0), ("hidden_bias", [1], 0)])]
+    let fileB : File := [(.str "rbm_am", .sd [("weights", [1, 2], 6), ("visible_bias", [2], 7), ("hidden_bias", [1], 8)])]
+    let recs : List Rec := [⟨3, some fileA⟩, ⟨10, none⟩, ⟨4, some fileB⟩]
+    let see := fun (r : Except SErr (Heap × NState × Stream)) => match r with
+      | .ok x => some (x.2.1.nv, x.2.1.nets.map (fun p => (viewNet x.1 p.2).map (fun e => e.2.2)), x.2.2.pos)
+      | .error _ => none
+    offset recs 2 = 13 ∧
+    see (autoloadStream Heap.empty ⟨recs, 13⟩ .pos []) = some (2, [[6, 7, 8]], 17) ∧
+    see (autoloadStreamWith (fun _ => some 0) Heap.empty ⟨recs, 13⟩ .pos []) = none ∧
+    see (autoloadStreamWith (fun _ => none) Heap.empty ⟨recs, 13⟩ .pos []) = none ∧
+    see (autoloadStream Heap.empty ⟨recs, 3⟩ .pos []) = none := by
+  decide
+
+/-- … and between checkpoints of EQUAL size and architecture the `seek(0)` variant is not even refused: it silently returns
+the parameters of the FIRST checkpoint (tokens 1, 2, 3) where the caller asked for the second (6, 7, 8). -/
+example :
+    let fileA : File := [(.str "rbm_am", .sd [("weights", [1, 2], 1), ("visible_bias", [2], 2), ("hidden_bias", [1], 3)])]
+    let fileB : File := [(.str "rbm_am", .sd [("weights", [1, 2], 6), ("visible_bias", [2], 7), ("hidden_bias", [1], 8)])]
+    let recs : List Rec := [⟨4, some fileA⟩, ⟨4, some fileB⟩]
+    let see := fun (r : Except SErr (Heap × NState × Stream)) => match r with
+      | .ok x => some (x.2.1.nets.map (fun p => (viewNet x.1 p.2).map (fun e => e.2.2)), x.2.2.pos)
+      | .error _ => none
+    see (autoloadStream Heap.empty ⟨recs, 4⟩ .pos []) = some ([[6, 7, 8]], 8) ∧
+    see (autoloadStreamWith (fun _ => some 0) Heap.empty ⟨recs, 4⟩ .pos []) = some ([[1, 2, 3]], 4) := by
+  decide
+
+/-- **C11_load_stream.** `state.load(fileobj)` with the object at the boundary in front of a checkpoint is the path-form
+`load` of THAT archive and leaves the object at the next boundary; into a shape-compatible state it succeeds, every network's
+contents are the archive's entries and the unitary dictionary is the archive's; a position that holds a header is refused
+with the model untouched. -/
+theorem C11_load_stream {h : Heap} (wf : HeapWF h) (st : NState) (ok : StateOK h st) (recs : List Rec)
+    (hpos : ∀ r ∈ recs, 0 < r.size) (k : Nat) (hk : k < recs.length) (sz : Nat) :
+    (∀ file, recs[k] = ⟨sz, some file⟩ →
+      loadStream h ⟨recs, offset recs k⟩ st =
+        ((load h (fun _ => some file) st 0).1, (load h (fun _ => some file) st 0).2.1, ⟨recs, offset recs k + sz⟩,
+          (load h (fun _ => some file) st 0).2.2) ∧
+      (Compatible h file st.nets →
+        (loadStream h ⟨recs, offset recs k⟩ st).2.2.2 = none ∧
+        (∀ p ∈ st.nets, aget file (.str p.1) = some (.sd (viewNet (loadStream h ⟨recs, offset recs k⟩ st).1 p.2))) ∧
+        (st.ud.isSome → ∀ u, aget file (.str "unitary_dict") = some u →
+          (loadStream h ⟨recs, offset recs k⟩ st).2.1.ud = some u))) ∧
+    (recs[k] = ⟨sz, none⟩ →
+      (loadStream h ⟨recs, offset recs k⟩ st).2.2.2 = some .RuntimeError ∧
+      (loadStream h ⟨recs, offset recs k⟩ st).1 = h ∧ (loadStream h ⟨recs, offset recs k⟩ st).2.1 = st) := by
+  constructor
+  · intro file hrec
+    have hnext : offset recs (k + 1) = offset recs k + sz := by rw [offset_succ recs k hk, hrec]
+    have e := loadStream_boundary h st recs hpos k hk sz file hrec
+    rw [hnext] at e
+    refine ⟨e, ?_⟩
+    intro hc
+    obtain ⟨l1, l2, l3⟩ := load_ok wf (fun _ => some file) st 0 file rfl ok hc
+    rw [e]
+    refine ⟨l1, l2, ?_⟩
+    intro hsome u hu
+    dsimp only
+    rw [l3]
+    cases hu2 : st.ud with
+    | none => simp [hu2] at hsome
+    | some u0 => simp only [hu]
+  · intro hrec
+    simp [loadStream, torchLoadS_header recs hpos k hk sz hrec]
+
+/-- **C11_save_stream.** `state.save(fileobj, metadata)`: refused exactly when the path-form save is (reserved name or
+non-string key) — and then nothing has been written; otherwise the heap is the one it was given (no side effect) and ONE
+archive holding the snapshot (networks ++ metadata ++ unitary dictionary) has been written at the object's position.  With the
+object at its end (appending to a stream of checkpoints): every earlier segment and boundary is as before, the new
+checkpoint starts at the old end, and the object is at the new end. -/
+theorem C11_save_stream {h : Heap} (wf : HeapWF h) (s : Stream) (st : NState) (md : Option Nat) (size : Nat)
+    (hnm : ∀ p ∈ st.nets, p.1 ≠ "unitary_dict") :
+    ((∃ e, saveStream h s st md size = .error e) ↔ Reserved st (mdEntries h md) ∨ NonStringKey (mdEntries h md)) ∧
+    (∀ s' h', saveStream h s st md size = .ok (s', h') →
+      h' = h ∧ s' = writeS s size (some (snapshot h st (mdEntries h md))) ∧
+      (s.pos = totalSize s.recs →
+        s'.recs = s.recs ++ [⟨size, some (snapshot h st (mdEntries h md))⟩] ∧ s'.pos = totalSize s'.recs ∧
+        offset s'.recs s.recs.length = s.pos ∧
+        (∀ k (hk : k < s.recs.length), s'.recs[k]? = some s.recs[k] ∧ offset s'.recs k = offset s.recs k))) := by
+  rw [saveStream_eq]
+  rcases save_cases h (fun _ => none) st md 0 hnm with ⟨r, e⟩ | ⟨r, k, e⟩ | ⟨r, k, e⟩
+  · simp [e, r]
+  · simp [e, k]
+  · rw [e, savedFile_snapshot wf st md hnm r]
+    refine ⟨by simp [r, k], ?_⟩
+    intro s' h' hs
+    simp only [Except.ok.injEq, Prod.mk.injEq] at hs
+    obtain ⟨rfl, rfl⟩ := hs
+    refine ⟨rfl, rfl, ?_⟩
+    intro hend
+    rw [writeS_end s size _ hend]
+    refine ⟨rfl, ?_, ?_, ?_⟩
+    · simp [totalSize_append, totalSize, hend]
+    · simp [offset, hend]
+    · intro j hj
+      refine ⟨by simp [List.getElem?_append_left hj], ?_⟩
+      simp [offset, List.take_append_of_le_length (Nat.le_of_lt hj)]
+
+/-- what a `save` into a file object is SPECIFIED to leave in that object when it succeeds in world `sw` -/
+def specWriteS (sw : SWorld) : SOp → Option (Nat × Stream)
+  | .saveS slot md sid size =>
+    match sw.w.states slot, sw.streams sid with
+    | some st, some s =>
+      match md with
+      | none => some (sid, writeS s size (some (snapshot sw.w.heap st [])))
+      | some m =>
+        match sw.w.metas m with
+        | none => none
+        | some id => some (sid, writeS s size (some (snapshot sw.w.heap st (mdEntries sw.w.heap (some id)))))
+    | _, _ => none
+  | _ => none
+
+/-- one step of the ABSTRACT machine on file objects: a successful `save` writes the specified snapshot at the object's
+position; a refused one leaves every object alone; the other operations (open, the caller's own writes, seek, the position
+changes of load / autoload) act as in the concrete machine -/
+def absSStep (sw : SWorld) (op : SOp) : Nat → Option Stream :=
+  match op with
+  | .saveS .. =>
+    if (sstep sw op).2 = none then
+      match specWriteS sw op with
+      | some (sid, s') => upd sw.streams sid s'
+      | none => sw.streams
+    else sw.streams
+  | _ => (sstep sw op).1.streams
+
+theorem sstep_streams (sw : SWorld) (wf : WorldWF sw.w) (op : SOp) : (sstep sw op).1.streams = absSStep sw op := by
+  cases op with
+  | saveS slot md sid size =>
+    unfold absSStep
+    cases hs : sw.w.states slot with
+    | none => simp [sstep, hs]
+    | some st =>
+      cases hq : sw.streams sid with
+      | none => simp [sstep, hs, hq]
+      | some s =>
+        have hnm := wf.st_noud slot st hs
+        cases md with
+        | none =>
+          cases hsv : saveStream sw.w.heap s st none size with
+          | error e => simp [sstep, hs, hq, hsv]
+          | ok r =>
+            obtain ⟨_, a, _⟩ := (C11_save_stream wf.heap s st none size hnm).2 r.1 r.2 hsv
+            simp [sstep, hs, hq, hsv, specWriteS, a, mdEntries]
+        | some m =>
+          cases hm : sw.w.metas m with
+          | none => simp [sstep, hs, hq, hm]
+          | some id =>
+            cases hsv : saveStream sw.w.heap s st (some id) size with
+            | error e => simp [sstep, hs, hq, hm, hsv]
+            | ok r =>
+              obtain ⟨_, a, _⟩ := (C11_save_stream wf.heap s st (some id) size hnm).2 r.1 r.2 hsv
+              simp [sstep, hs, hq, hm, hsv, specWriteS, a]
+  | base op => rfl
+  | openS sid => rfl
+  | writeHdr sid n => rfl
+  | seekS sid pos => rfl
+  | loadS slot sid => rfl
+  | autoloadS slot kind sid rand => rfl
+
+theorem srun_append (sw : SWorld) (a b : List SOp) : srun sw (a ++ b) = srun (srun sw a) b := by
+  induction a generalizing sw with
+  | nil => rfl
+  | cons op r ih => simp [srun, ih]
+
+/-- **C11_history_streams** (the round trip through file objects, for all histories).  For EVERY history over states,
+modules, metadata dicts, files AND open file objects (open, the caller's own header bytes, seek, save / load / autoload through
+the object, interleaved with all path-form operations) from the empty world: the invariant of `C11_history` holds; every
+operation moves the file objects exactly as the abstract machine prescribes (a successful save puts the SNAPSHOT of the state
+at the object's position, a refused one changes nothing); and at the end, for every file object and every boundary `k` of it
+that holds an archive, `load` into any shape-compatible state succeeds with that archive's parameters and unitary
+dictionary, and `autoload` is the path-form autoload of that archive — each leaving the object at the next boundary. -/
+theorem C11_history_streams (ops : List SOp) :
+    let sw := srun SWorld.empty ops
+    WorldWF sw.w ∧
+    (∀ op, (srun SWorld.empty (ops ++ [op])).streams = absSStep sw op) ∧
+    (∀ sid recs pos, sw.streams sid = some ⟨recs, pos⟩ → (∀ r ∈ recs, 0 < r.size) →
+      ∀ k (hk : k < recs.length) sz file, recs[k] = ⟨sz, some file⟩ →
+        (∀ slot st, sw.w.states slot = some st → Compatible sw.w.heap file st.nets →
+          (loadStream sw.w.heap ⟨recs, offset recs k⟩ st).2.2.2 = none ∧
+          (∀ q ∈ st.nets, aget file (.str q.1) =
+            some (.sd (viewNet (loadStream sw.w.heap ⟨recs, offset recs k⟩ st).1 q.2))) ∧
+          (st.ud.isSome → ∀ u, aget file (.str "unitary_dict") = some u →
+            (loadStream sw.w.heap ⟨recs, offset recs k⟩ st).2.1.ud = some u) ∧
+          (loadStream sw.w.heap ⟨recs, offset recs k⟩ st).2.2.1 = ⟨recs, offset recs k + sz⟩) ∧
+        (∀ kind rand, autoloadStream sw.w.heap ⟨recs, offset recs k⟩ kind rand =
+          match autoload sw.w.heap (fun _ => some file) kind 0 rand with
+          | .error e => .error e
+          | .ok r => .ok (r.1, r.2, ⟨recs, offset recs k + sz⟩))) := by
+  intro sw
+  have wfw : WorldWF sw.w := srun_wf SWorld.empty WorldWF.empty ops
+  refine ⟨wfw, ?_, ?_⟩
+  · intro op
+    rw [srun_append]
+    exact sstep_streams sw wfw op
+  · intro sid recs pos _ hpos k hk sz file hrec
+    constructor
+    · intro slot st hs hc
+      obtain ⟨l, _⟩ := C11_load_stream wfw.heap st (wfw.stateOK hs) recs hpos k hk sz
+      obtain ⟨l1, l2, l3⟩ := (l file hrec).2 hc
+      refine ⟨l1, l2, l3, ?_⟩
+      rw [(l file hrec).1]
+    · intro kind rand
+      exact (C11_autoload_stream sw.w.heap kind rand recs hpos k hk sz file hrec).1
+
+/-- a concrete non-trivial history through ONE file object: a 14-byte header, a complex state with a user-added unitary
+saved behind it (archive of 100 bytes), changed and saved again behind that (120 bytes), a mixed state of other sizes saved
+third (90 bytes); then `autoload` from the boundary of each checkpoint (positions 14, 114, 234) succeeds, from the header
+(position 0) it is refused, a compatible `load` of the first checkpoint succeeds, and a save with a reserved key is refused. -/
+example :
+    let sw := srun SWorld.empty [
+      .base (.construct 0 .cplx 2 (some 3) none (some [("X", 1), ("Y", 2), ("Z", 3), ("H", 4)]) [[5], [6]]),
+      .base (.write 0 "rbm_am" [7, 8, 9]), .base (.addUnitary 0 "K" 13),
+      .base (.mkMeta 0 [(.str "epoch", .mv false 14)]), .base (.mkMeta 1 [(.str "rbm_ph", .mv false 15)]),
+      .openS 0, .writeHdr 0 14, .saveS 0 (some 0) 0 100,
+      .base (.write 0 "rbm_ph" [10, 11, 12]), .saveS 0 (some 0) 0 120,
+      .base (.construct 1 .dens 2 (some 1) (some 3) none [[16, 17], [18, 19]]), .saveS 1 none 0 90]
+    (sw.streams 0).map (fun s => (s.recs.map (fun r => (r.size, r.data.isSome)), s.pos)) =
+      some ([(14, false), (100, true), (120, true), (90, true)], 324) ∧
+    (sstep (sstep sw (.seekS 0 14)).1 (.autoloadS 2 .cplx 0 [])).2 = none ∧
+    (sstep (sstep sw (.seekS 0 114)).1 (.autoloadS 2 .cplx 0 [])).2 = none ∧
+    (sstep (sstep sw (.seekS 0 234)).1 (.autoloadS 2 .dens 0 [])).2 = none ∧
+    (sstep (sstep sw (.seekS 0 0)).1 (.autoloadS 2 .cplx 0 [])).2 = some .RuntimeError ∧
+    (sstep (sstep sw (.seekS 0 14)).1 (.loadS 0 0)).2 = none ∧
+    (sstep (sstep sw (.seekS 0 14)).1 (.loadS 1 0)).2 ≠ none ∧
+    (sstep sw (.saveS 0 (some 1) 0 50)).2 = some .ValueError ∧
+    ((sstep sw (.saveS 0 (some 1) 0 50)).1.streams 0).map (fun s => (s.recs.length, s.pos)) = some (4, 324) := by
+  decide
+
+/-! ### C11.6 — `load` REPLACES the receiver's unitary dictionary -/
+
+/-- **C11_load_replaces_dict.** For EVERY prior dictionary `d0` of the receiving state (any user letters, any values) and every
+file written by a state with dictionary `d`: after a successful `load` the receiver's dictionary is EXACTLY `d` — the same
+names in the same order with the saved values; a letter the receiver had and the file lacks is gone, nothing is merged. -/
+theorem C11_load_replaces_dict {h : Heap} (wf : HeapWF h) (fs : Files) (st : NState) (path : Nat) (file : File)
+    (hf : fs path = some file) (ok : StateOK h st) (hc : Compatible h file st.nets)
+    (d0 d : List (String × Tok)) (hd0 : st.ud = some (.ud d0)) (hd : aget file (.str "unitary_dict") = some (.ud d)) :
+    (load h fs st path).2.2 = none ∧ (load h fs st path).2.1.ud = some (.ud d) ∧
+    (∀ name, name ∉ keys d → ∀ d', (load h fs st path).2.1.ud = some (.ud d') → aget d' name = none) := by
+  obtain ⟨l1, _, l3⟩ := load_ok wf fs st path file hf ok hc
+  have hud : (load h fs st path).2.1.ud = some (.ud d) := by rw [l3, hd0]; simp only [hd]
+  refine ⟨l1, hud, ?_⟩
+  intro name hn d' hd'
+  rw [hud] at hd'
+  injection hd' with hd'
+  injection hd' with hd'
+  subst hd'
+  exact (aget_none_iff d name).2 hn
+
+/-- satisfiable and non-trivial: the receiver owns the extra letters `Q`, `R` (and its own `H`); the file has `X, Y, Z, H, K`:
+after the load the receiver has exactly the file's five entries with the file's `H` -/
+example :
+    let w := run World.empty [
+      .construct 0 .cplx 2 (some 3) none (some [("X", 1), ("Y", 2), ("Z", 3), ("H", 4)]) [[5], [6]], .addUnitary 0 "K" 13,
+      .construct 1 .cplx 2 (some 3) none (some [("X", 1), ("Y", 2), ("Z", 3), ("H", 20)]) [[16], [17]],
+      .addUnitary 1 "Q" 21, .addUnitary 1 "R" 22, .save 0 none 0, .load 1 0]
+    (w.states 1).bind (fun st => st.ud) = some (.ud [("X", 1), ("Y", 2), ("Z", 3), ("H", 4), ("K", 13)]) := by
+  decide
+
+/-! ### C11.7 — where the model-saving callback writes -/
+
+/-- **C11_saver_path.** A `ModelSaver(period, folder_path, file_name)` created while the working directory is `cwd0` (any folder:
+relative or absolute, with `.` / `..` levels, existing or not) — if the construction is not refused (no regular file in the
+way): the folder exists as a directory afterwards, everything that was a directory still is, and for EVERY later working
+directory `cwd1`, every epoch `e` with `e % period = 0` and every file name template that formats with one argument, the file
+written at the end of epoch `e` is `<folder resolved against cwd0> / <file_name.format(e)>`; at epochs that are no multiple of
+the period nothing is written; the initial checkpoint goes to `<the same folder> / file_name.format("initial")` iff
+`save_initial`.  A `metadata` argument that is neither callable, dict nor None refuses EVERY write (both with and without
+`metadata_only`), the three documented forms are `Store.saverSave`. -/
+theorem C11_saver_path (fs fs' : DirFs) (cwd0 : List String) (period : Nat) (folder : PathArg) (fileName : List Seg)
+    (si : Bool) (sv : PSaver) (hinit : PSaver.init true fs cwd0 period folder fileName si = .ok (sv, fs'))
+    (hroot : fs [] = some true) :
+    fs' (resolvePath cwd0 folder) = some true ∧ (∀ q, fs q = some true → fs' q = some true) ∧
+    (∀ (cwd1 : List String) (e : Nat) (name : String), period ≠ 0 → formatName fileName (.num e) = .ok name →
+      sv.epochEndTarget cwd1 e = .ok (if e % period = 0 then some (resolvePath cwd0 folder, name) else none)) ∧
+    (∀ (cwd1 : List String) (name : String), formatName fileName .initial = .ok name →
+      sv.trainStartTarget cwd1 = .ok (if si then some (resolvePath cwd0 folder, name) else none)) ∧
+    (∀ h files st mo path, saverSaveArg h files st .other mo path = .error .UnboundLocalError) ∧
+    (∀ h files st mo path id, saverSaveArg h files st (.dict id) mo path =
+      match saverSave h files st (.dict id) mo path with
+      | .error e => .error (.inner e)
+      | .ok x => .ok x) := by
+  unfold PSaver.init at hinit
+  cases hm : mkdirAll fs [] (resolvePath cwd0 folder) with
+  | error e => simp [hm] at hinit
+  | ok fs1 =>
+    simp only [hm, Except.ok.injEq, Prod.mk.injEq, if_true] at hinit
+    obtain ⟨rfl, rfl⟩ := hinit
+    refine ⟨?_, ?_, ?_, ?_, fun _ _ _ _ _ => rfl, fun _ _ _ _ _ _ => rfl⟩
+    · simpa using mkdirAll_dir fs fs1 [] _ hm hroot
+    · exact fun q hq => mkdirAll_keeps fs fs1 [] _ hm q hq
+    · intro cwd1 e name hp hn
+      simp only [PSaver.epochEndTarget, hp, if_false, PSaver.target, hn, resolvePath_resolved]
+      split <;> rfl
+    · intro cwd1 name hn
+      simp only [PSaver.trainStartTarget, PSaver.target, hn, resolvePath_resolved]
+      split <;> rfl
+
+/-- satisfiable and non-trivial: folder `"runs/../ckpt/./a"` created in `/home/u` (where `/home/u/ckpt` already exists), file name
+`"m{}.pt"`, period 2; the trainer then moves to `/tmp/x`.  The code writes epoch 4 to `/home/u/ckpt/a/m4.pt`; the variant that
+does not resolve at construction (mutant class M5_C11_1) would write to `/tmp/x/ckpt/a/m4.pt`.  A regular file in the way, a
+second blank in the file name and period 0 are refused. -/
+example :
+    let fs : DirFs := fun q => if q = [] ∨ q = ["home"] ∨ q = ["home", "u"] ∨ q = ["home", "u", "ckpt"] then some true
+      else if q = ["home", "u", "blocked"] then some false else none
+    let folder : PathArg := ⟨false, ["runs", "..", "ckpt", ".", "a"]⟩
+    let tmpl : List Seg := [.lit "m", .auto, .lit ".pt"]
+    let tgt := fun (r : Except PErr (PSaver × DirFs)) (cwd1 : List String) (e : Nat) => match r with
+      | .ok x => (match x.1.epochEndTarget cwd1 e with | .ok t => t | .error _ => none)
+      | .error _ => none
+    tgt (PSaver.init true fs ["home", "u"] 2 folder tmpl true) ["tmp", "x"] 4 = some (["home", "u", "ckpt", "a"], "m4.pt") ∧
+    tgt (PSaver.init true fs ["home", "u"] 2 folder tmpl true) ["tmp", "x"] 3 = none ∧
+    tgt (PSaver.init false fs ["home", "u"] 2 folder tmpl true) ["tmp", "x"] 4 = some (["tmp", "x", "ckpt", "a"], "m4.pt") ∧
+    (match PSaver.init true fs ["home", "u"] 2 ⟨false, ["blocked", "a"]⟩ tmpl true with | .ok _ => false | .error _ => true) = true ∧
+    formatName [.lit "m", .auto, .auto] (.num 4) = .error .IndexError ∧
+    formatName [.lit "m", .idx 0, .lit "-", .idx 0] .initial = .ok "minitial-initial" ∧
+    (match PSaver.init true fs ["home", "u"] 0 folder tmpl true with
+      | .ok x => (match x.1.epochEndTarget [] 4 with | .error .ZeroDivisionError => true | _ => false)
+      | .error _ => false) = true := by
   decide
 
 end C11
